@@ -435,8 +435,14 @@ def pre_for(qn, src):
         want = []
         for n in named:
             want.append("if %s and (not kwargs.get('%s')):\n    kwargs['%s'] = %s" % (n, n, n, n))
-        if "\n".join(ast.unparse(b) for b in body[:-1]) == "\n".join(want):
+        got = "\n".join(ast.unparse(b) for b in body[:-1])
+        if got == "\n".join(want):
             return "(PreAliases %s)" % ulist(named)
+        # from fix f0b79e4 on: only None is not copied back (`X is not None and kwargs.get('X') is None`); a None value
+        # is not stored by the generic constructor either, so for the exception flow this is the identity
+        want2 = ["if %s is not None and kwargs.get('%s') is None:\n    kwargs['%s'] = %s" % (n, n, n, n) for n in named]
+        if got == "\n".join(want2):
+            return "PreNoop"
         return "PreUnknown"
     if not named and fn.args.kwarg:
         # no statement may index kwargs (reads go through .get / `in`), call anything but
